@@ -65,6 +65,7 @@ def gen(rng, tier):
     return {'pos': pos, 'weights': weights, 'npartition': npart, 'box': box, 'coord': coord, 'dtype': dtype,
             'sort': rng.random() < 0.4, 'nthread': rng.choice([1, 2, 3, 4, 5, 7, 8, 16, 16, rng.randrange(1, 17)]),
             'sched': gen_sched(rng), 'compiled': rng.random() < 0.2, 'edit_between_calls': rng.random() < 0.3,
+            'layout': rng.choice(['C', 'C', 'C', 'cols-view', 'fortran', 'strided', 'readonly']),
             'wdtype': rng.choice([dtype, dtype, 'f4', 'f8'])}
 
 
@@ -159,8 +160,8 @@ def run(case):
     s = case['sched']
     results = {}
     for poison in ('A', 'B'):
-        p_in = pos.copy()
-        w_in = None if weights is None else weights.copy()
+        p_in = H.with_layout(pos, case.get('layout', 'C'), writable_needed=bool(case.get('edit_between_calls')))
+        w_in = H.with_layout(weights, case.get('layout', 'C'), writable_needed=bool(case.get('edit_between_calls')))
         res, exc, summ = H.run(lambda: tsc.partition_parallel(p_in, case['npartition'], case['box'], weights=w_in,
                                                               coord=case['coord'], nthread=case['nthread'],
                                                               sort=case['sort']), s, poison=poison)
@@ -190,7 +191,8 @@ def run(case):
             if N == 0:
                 bump(out['probes'], 'empty-input')
             sw = summ['switches']
-        results[poison] = res
+        # (copies: an output may legitimately be the caller's own array, which the history below edits)
+        results[poison] = tuple(None if x is None else np.array(np.asarray(x), copy=True) for x in res)
         if out['violations']:
             return out
         if poison == 'A' and case.get('edit_between_calls') and N:
